@@ -1810,7 +1810,9 @@ impl Sessions {
         let mut lru_index = None;
         let mut lru_ts = Instant::now();
         for (i, s) in self.sessions.iter().enumerate() {
-            if (s.expired || s.last_use < lru_ts)
+            // The first idle session found is a candidate whatever its time stamp is:
+            // a session last used in the very clock tick of this call is still idle.
+            if (s.expired || lru_index.is_none() || s.last_use < lru_ts)
                 && !s.reserved
                 && s.exchanges.iter().all(Option::is_none)
             {
